@@ -140,7 +140,8 @@ func (c *Ctx) solve(o *Obligation, opts solveOpts) {
 	}
 	// second variant: own skolemisation + instantiation, quantifier-free
 	instFile := ""
-	if o.Expect != "sat" {
+	{
+		// (for reachability probes the variant can only refute: unsat = vacuous)
 		if it := c.instantiatedText(o, nil); it != "" {
 			instFile = strings.TrimSuffix(file, ".smt2") + ".inst.smt2"
 			os.WriteFile(instFile, []byte(it), 0o644)
